@@ -194,7 +194,10 @@ impl WeightedSampler {
         let mut weighted_keys: Vec<(f64, NodeId)> = candidates
             .iter()
             .map(|(node_id, weight)| {
-                if *weight <= 0.0 {
+                // NaN compares false with everything, so test for "finite and positive"
+                // explicitly: a NaN weight would otherwise produce a NaN key, and the sort
+                // below panics on keys that are not totally ordered.
+                if !weight.is_finite() || *weight <= 0.0 {
                     return Err(PlacementError::InvalidWeight {
                         node_id: node_id.clone(),
                         weight: *weight,
@@ -213,7 +216,7 @@ impl WeightedSampler {
             .collect::<PlacementResult<Vec<_>>>()?;
 
         // Sort by key in descending order and take top k
-        weighted_keys.sort_by(|a, b| b.0.partial_cmp(&a.0).unwrap_or(std::cmp::Ordering::Equal));
+        weighted_keys.sort_by(|a, b| b.0.total_cmp(&a.0));
 
         Ok(weighted_keys
             .into_iter()
